@@ -2,7 +2,7 @@
 C02, C06, C14, C15."""
 import z3
 
-from pyvc.contracts import Any, Bool, Const, ExtSpec, ExtT, Int, ListOfT, LoopSpec, MapT, ObjT, OptT, Str
+from pyvc.contracts import Any, Bool, Const, ExtSpec, ExtT, Int, ListOfT, LoopSpec, MapT, ObjT, OptT, SetT, Str
 from pyvc.values import ExcV, FStr, Opaque, Opt, PartialV, Ref, U
 
 from .a_submit import EXTRA, UT
@@ -11,7 +11,7 @@ from .spec import TWO53, b2z, implies, is_ceil_div
 
 B = z3.BoolVal
 L = 's3transfer'
-S3T, MPD = f'{L}:S3Transfer', f'{L}:MultipartDownloader'
+S3T, MPD, MPU = f'{L}:S3Transfer', f'{L}:MultipartDownloader', f'{L}:MultipartUploader'
 LCFG = f'{L}:TransferConfig'
 
 
@@ -42,6 +42,8 @@ def register(R):
     R.ext_values['os.extsep'] = '.'
     R.contract(f'{UT}:random_file_extension', params=dict(num_digits=Int), returns=ExtT('str'), events=False)
     R.contract(f'{L}:random_file_extension', params=dict(num_digits=Int), returns=ExtT('str'), events=False)
+
+    register_uploader_filters(R)
 
     # ------------------------------------------------------------------ download_file: temp + rename / remove
     R.contract(f'{S3T}._download_file', params=dict(bucket=ExtT('str'), key=ExtT('str'), filename=Any, object_size=Int,
@@ -165,7 +167,28 @@ def register(R):
     )
 
 
+def legacy_const(eng, name):
+    """list constant of the legacy MultipartUploader read from the real AST ([] when the class has no such attribute)."""
+    from pyvc.state import State
+    ci = eng.repo.cls(MPU)
+    owner, _ = eng.repo.find_class_attr(ci, name)
+    if owner is None:
+        return []
+    st = State()
+    return list(st.obj(eng.class_attr(owner, name, st)[0].val).items)
+
+
+def register_uploader_filters(R):
+    """MultipartUploader._extra_upload_part_args / _extra_args_for: whitelist filters over the user's map."""
+    from .c15_filters import filter_contract
+    filter_contract(R, f'{MPU}._extra_upload_part_args', 'extra_args', 'upload_parts_args',
+                    lambda c_eng, st, loc: c_eng.class_attr(c_eng.repo.cls(MPU), 'UPLOAD_PART_ARGS', st)[0].val)
+    filter_contract(R, f'{MPU}._extra_args_for', 'extra_args', 'filtered_args', lambda c_eng, st, loc: loc('allowed'),
+                    extra_params=dict(allowed=SetT('Str')))
+
+
 LEGACY_C06 = [f'{S3T}.download_file']
 LEGACY_C14 = [f'{S3T}._download_file']
-LEGACY_C15 = [f'{S3T}.download_file', f'{S3T}._download_file', f'{MPD}._download_range']
+LEGACY_C15 = [f'{S3T}.download_file', f'{S3T}._download_file', f'{MPD}._download_range', f'{MPU}.upload_file',
+              f'{MPU}._extra_upload_part_args', f'{MPU}._extra_args_for']
 LEGACY_C02 = [f'{MPD}._download_range']
